@@ -204,4 +204,47 @@ Section T1.
   Lemma L_den i : (R0 i * Z0pp i - Z0p i * (2 * R0p i)) ^ 2 + (Z0p i * (R0pp i - R0 i) - R0p i * Z0pp i) ^ 2
                   + (R0p i * (2 * R0p i) - R0 i * (R0pp i - R0 i)) ^ 2 = kL i * kL i * lL i ^ 6.
   Proof. inst alg_den i. Qed.
+
+  Local Ltac snames :=
+    ua ("s.tangent_cylindrical_0" :: "s.tangent_cylindrical_1" :: "s.tangent_cylindrical_2"
+        :: "s.normal_cylindrical_0" :: "s.normal_cylindrical_1" :: "s.normal_cylindrical_2"
+        :: "s.binormal_cylindrical_0" :: "s.binormal_cylindrical_1" :: "s.binormal_cylindrical_2"
+        :: "s.d_l_d_phi" :: "s.curvature" :: "s.torsion" :: nil)%list.
+
+  Theorem C03_orthonormal : orthonormal VA.
+  Proof.
+    intros i. vnames. snames.
+    pose proof (L_tt i) as Htt. pose proof (L_nn i) as Hnn. pose proof (L_tn i) as Htn.
+    destruct (b_eq i) as (Hb0 & Hb1 & Hb2).
+    cbv [tL nL bL] in *. rewrite Hb0, Hb1, Hb2.
+    split; [exact Htt|]. split; [exact Hnn|].
+    split; [apply frame_bb; assumption|]. split; [exact Htn|].
+    split; ring.
+  Qed.
+
+  Theorem C03_right_handed : right_handed VA.
+  Proof. intros i. vnames. snames. exact (b_eq i). Qed.
+
+  Theorem C03_tangent : tangent_is_dr_dl VA.
+  Proof.
+    intros i. vnames. snames.
+    pose proof (l_pos i) as Hl. pose proof (l_sq i) as Hl2.
+    pose proof (t0_eq i) as H0. pose proof (t1_eq i) as H1. pose proof (t2_eq i) as H2.
+    cbv [tL lL] in *. rewrite H0, H1, H2.
+    split; [exact Hl|]. split; [exact Hl2|].
+    split; [field; lra|]. split; [field; lra|]. split; [field; lra|].
+    apply Rdiv_lt_0_compat; [apply (ax_R0 _ Hadm)|exact Hl].
+  Qed.
+
+  Theorem C03_curvature_positive : curvature_positive VA.
+  Proof. intros i. snames. exact (k_nonneg i). Qed.
+
+  Theorem C03_X1c : X1c_def VA.
+  Proof. intros i. ua ("s.X1c" :: "s.curvature" :: nil)%list. reflexivity. Qed.
+
+  Theorem C03_T1 : orthonormal VA /\ right_handed VA /\ tangent_is_dr_dl VA /\ curvature_positive VA /\ X1c_def VA.
+  Proof.
+    split; [exact C03_orthonormal|]. split; [exact C03_right_handed|]. split; [exact C03_tangent|].
+    split; [exact C03_curvature_positive|exact C03_X1c].
+  Qed.
 End T1.
